@@ -46,6 +46,38 @@ Idempotent(val, n, f, v)               == SetOp(SetOp(val, n, f, v), n, f, v) = 
 Commute(val, n1, f1, v1, n2, f2, v2)   == f1 # f2 => SetOp(SetOp(val, n1, f1, v1), n2, f2, v2) = SetOp(SetOp(val, n2, f2, v2), n1, f1, v1)
 RootReaches(val, f, v)                 == \A m \in Declaring[f] : <<m, f>> \in DOMAIN val => SetOp(val, <<>>, f, v)[<<m, f>>] = v
 
+(* ---- Replace(node, child): a freshly constructed group of the slot's class is assigned to node.child -------------
+   The statement only speaks about a LATER Set: after any Set(a, f, v) every CURRENT descendant of a declaring f holds
+   v (SetReached on the current tree - since the new group has the class of the slot, the paths below it are the
+   same as before).  What the new group holds before the next Set is not promised anywhere (BaseParam.__setattr__ has
+   no docstring; the only comment, in __post_init__, promises propagation of time_begin / time_end / antialiased
+   when a group is CONSTRUCTED): EITHER what it was built with or the value the parent group holds for that field.
+   The assignment itself is an instance of "setting a parameter": nested groups declaring a child of the same name
+   may receive the same object (EITHER band, AliasSlots); Set histories are only continued for clean slots. *)
+KidNames(c)     == {k[1] : k \in Range(Kids(c))}
+Slots           == UNION {{<<n, k>> : k \in KidNames(NodeClass[n])} : n \in Nodes}
+SlotPath(n, k)  == Append(n, k)
+SlotClass(n, k) == NodeClass[Append(n, k)]
+AliasSlots(n, k) == {Append(m, k) : m \in {d \in Nodes : IsPrefix(n, d) /\ d # n /\ k \in KidNames(NodeClass[d])}}
+CleanSlot(n, k) == AliasSlots(n, k) = {}
+(* on a valuation: inh = the new group takes the parent's values where the parent declares the field *)
+ReplaceOp(val, n, k, inh) == LET r == Append(n, k) IN
+    [p \in DOMAIN val |-> IF IsPrefix(r, p[1]) THEN (IF inh /\ <<n, p[2]>> \in DOMAIN val THEN val[<<n, p[2]>>] ELSE "built")
+                           ELSE val[p]]
+ReplaceFrame(old, new, n, k)  == LET r == Append(n, k) IN \A p \in DOMAIN old : ~IsPrefix(r, p[1]) => new[p] = old[p]
+ReplaceInside(old, new, n, k) == LET r == Append(n, k) IN \A p \in DOMAIN old : IsPrefix(r, p[1]) =>
+                                     new[p] \in {"built"} \cup (IF <<n, p[2]>> \in DOMAIN old THEN {old[<<n, p[2]>>]} ELSE {})
+ReplacePost(old, new, n, k)   == DOMAIN new = DOMAIN old /\ ReplaceFrame(old, new, n, k) /\ ReplaceInside(old, new, n, k)
+(* trace side of a real Replace:
+   aliases : [path, ...]                 other slots that hold the very same new object afterwards
+   changed : [[path, field], ...]        every (node path, public scalar) whose value differs before/after
+   differs : [[relative path, field, token], ...]  entries of the new group that differ from what it was built with
+   pvals   : [[field, token], ...]       the scalar values of `node` itself after the assignment *)
+BadAliases(n, k, aliases)             == Range(aliases) \ AliasSlots(n, k)
+ReplaceClobbered(n, k, changed, aliases) == LET r == Append(n, k) IN
+    {c \in Range(changed) : ~IsPrefix(r, c[1]) /\ ~\E al \in Range(aliases) : IsPrefix(al, c[1])}
+Garbled(differs, pvals)               == {d \in Range(differs) : ~\E x \in Range(pvals) : x[1] = d[2] /\ x[2] = d[3]}
+
 (* --- what the trace of a real Set is checked against (diff-encoded observation) ---
    vals    : [[path, value token], ...]  value of `field` at every real node that has it after the Set
    changed : [[path, field name], ...]   every (node, public non-group attribute) whose value differs before/after *)
